@@ -505,6 +505,15 @@ func (c *compiler) evalIdentifier(node *ast.Identifier) (interface{}, error) {
 				return nil, nil
 			}
 
+			if f.CanInterface() {
+				switch f.Interface().(type) {
+				case HTMLer, fmt.Stringer, interfaceable:
+					// the pointer is what has the methods that decide how the value
+					// prints: dereferencing it would lose them (the value printed nothing)
+					return f.Interface(), nil
+				}
+			}
+
 			f = f.Elem()
 		}
 
